@@ -1,23 +1,23 @@
 (* C01 — stream data is delivered reliably, in order, exactly once.
-   Only the property theorems live here: each is closed by a lemma of Proofs/Streams.v, its statement
-   is pinned here, and its assumptions are printed for the audit.
+   Only the property theorems live here: each is closed by a lemma of Proofs/Streams.v (per-flow safety),
+   Proofs/StreamsSys.v (lifting to the two-endpoint system, cursor) or Proofs/StreamsLive.v (liveness of one
+   flow); its statement is pinned here, and its assumptions are printed for the audit.
 
    [flow_reach c fl P] : the flow [fl] (Sender over the C09 SendBuf model, Recver over the C08 RecvBuf
    model) and the frames [P] it has put on the wire so far, after ANY sequence of application calls
    (write / flush / shutdown / cancel / read / stop), emissions with any capacity, token count and
    credit, and deliveries / acknowledgements / loss reports of any frame of [P], in any order, any
-   number of times ([justified]).  [in_class] restricts feedback for an EMPTY range (FIN-only frames)
-   to the calls after which SendBuf is still inside the state space verified by C09; outside it is
-   finding F29 and nothing is proved here (exercised by the correspondence run and the oracle only).
+   number of times ([justified]).  No class restriction: with the repaired SendBuf (finding F29 fixed)
+   feedback for the empty range of a FIN-only frame is the identity.
    [rc_got] = every byte handed to the reader, [rc_eos] = the reader was told the stream ended. *)
 From Coq Require Import List NArith ZArith.
-From GQ Require Import Lib.Base Model.SendBuf Model.RecvBuf Model.Streams Proofs.Streams.
+From GQ Require Import Lib.Base Model.SendBuf Model.RecvBuf Model.Streams Proofs.Streams Proofs.StreamsSys Proofs.StreamsLive Proofs.StreamsRound.
 Import ListNotations.
 Local Open Scope N_scope.
 
 (* the invariant is inductive over every justified operation *)
 Theorem c01_step_inv : forall c fl P o fl' new out,
-  FI c fl P -> justified P o -> in_class fl o -> flow_step c fl o = (fl', new, out) -> FI c fl' (P ++ new).
+  FI c fl P -> justified P o -> flow_step c fl o = (fl', new, out) -> FI c fl' (P ++ new).
 Proof. exact flow_step_inv. Qed.
 
 (* reliable, in order, exactly once; end of stream only after the last byte and only after shutdown *)
@@ -43,13 +43,116 @@ Theorem c01_reset_safe : forall c fl P, flow_reach c fl P ->
   (forall err final, In (FrR err final) P -> final <= wr (fl_snd fl) /\ is_reset (fl_snd fl)).
 Proof. exact p_c01_reset_safe. Qed.
 
+(* ---- lifting: every flow of every state the two-endpoint system reaches, for every op list, is a
+   reachable flow over the projection of the pool on its key; hence safety for the system model that the
+   correspondence stream `stream_e2e` runs against the implementation *)
+Theorem c01_reach_system : forall rot w dirs ops key fl,
+  StreamCtl.alookup (sy_flows (sys_exec (sys_init rot w dirs) ops)) key = Some fl ->
+  flow_reach (cof key) fl (proj key (sy_pool (sys_exec (sys_init rot w dirs) ops))).
+Proof. exact p_c01_reach_system. Qed.
+
+Theorem c01_safety_system : forall rot w dirs ops key fl,
+  StreamCtl.alookup (sy_flows (sys_exec (sys_init rot w dirs) ops)) key = Some fl ->
+  is_prefix (rc_got (fl_rcv fl)) (written_bytes (cof key) fl) /\
+  (rc_eos (fl_rcv fl) = true ->
+   rc_got (fl_rcv fl) = written_bytes (cof key) fl /\ sn_shutcalled (fl_snd fl) = true).
+Proof. exact p_c01_safety_system. Qed.
+
+(* ---- the cursor: whatever Output.cursor holds, one try_load_data_into_once offers the packet to every
+   member of the output set with at least one token; and when it ends without a frame, every listed
+   stream was tried and declined *)
+Theorem c01_cursor_visits_all : forall rot cursor keys k,
+  In k keys -> exists tok, In (k, tok) (load_order rot cursor keys) /\ 1 <= tok.
+Proof. exact load_order_visits. Qed.
+
+(* finding F60 in the model: the output set is sorted by stream id ([c01_output_sorted]); as coded
+   (rot = false) a cursor stream that has used up its tokens heads the next round again; with the prepared
+   repair (rot = true) it is offered the packet only after every other member of the output set *)
+Theorem c01_output_sorted : forall s side, asc (map fst (outgoing_keys s side)).
+Proof. exact outgoing_keys_asc. Qed.
+
+Theorem c01_cursor_no_rotation : forall c keys, asc keys -> In c keys ->
+  exists rest, load_order false (Some (c, 0)) keys = (c, StreamCtl.DEFAULT_TOKENS) :: rest.
+Proof. exact p_c01_cursor_no_rotation. Qed.
+
+Theorem c01_cursor_rotates : forall c keys, asc keys -> In c keys ->
+  exists front, load_order true (Some (c, 0)) keys = front ++ [(c, StreamCtl.DEFAULT_TOKENS)] /\
+    forall k, In k keys -> k <> c -> In (k, StreamCtl.DEFAULT_TOKENS) front.
+Proof. exact p_c01_cursor_rotates. Qed.
+
+Theorem c01_emit_none_all_tried : forall skeys cap credit order s s',
+  try_streams s skeys order cap credit = (s', None) ->
+  forall sid tok key, In (sid, tok) order -> StreamCtl.alookup skeys sid = Some key ->
+    (exists fl, StreamCtl.alookup (sy_flows s) key = Some fl) ->
+    exists s1 s2 fr out, on_flow s1 key (FTry (pred_of_packet cap sid tok) credit) = Some (s2, fr, out) /\ fo_pick out = None.
+Proof. exact try_streams_none_all. Qed.
+
+(* ---- liveness of one flow, in general: from EVERY reachable state without reset whose written length is
+   within the stream window, one good round — lose every frame of the pool; emit (any predicate that
+   always grants >= 1 byte, i.e. capacity >= 26, any credit >= 1) until nothing more is emitted, the
+   boolean excluding fuel exhaustion; deliver every frame; acknowledge every frame — ends in [flow_done]:
+   everything written is readable, after shutdown the recver is DataRcvd/DataRead and the sender DataRcvd,
+   poll_flush answers Ready and (after shutdown) poll_shutdown answers Ready; two reads with room then
+   return exactly the written bytes and, after shutdown, report the end *)
+Theorem c01_progress_flow : forall c fl P pred credit fuel fl' P',
+  flow_reach c fl P -> ~ is_reset (fl_snd fl) -> wr (fl_snd fl) <= md (fl_snd fl) ->
+  good_pred pred -> credit <> 0 ->
+  good_round fuel c fl P pred credit = (fl', P', true) ->
+  flow_done fl' /\
+  forall room fl'' P'', wr (fl_snd fl') < room -> run c fl' P' [FRead room; FRead room] = (fl'', P'') ->
+    rc_got (fl_rcv fl'') = written_bytes c fl'' /\ (sn_shutcalled (fl_snd fl'') = true -> rc_eos (fl_rcv fl'') = true).
+Proof. exact p_c01_progress_flow. Qed.
+
+(* the same from any drained state, whatever led to it (the form the system-level round uses) *)
+Theorem c01_progress_drained : forall c fl P,
+  round_ok c fl P -> snd_drained (fl_snd fl) ->
+  exists fl3 fl4, run c fl P (flat_map deliver_op P) = (fl3, P) /\ run c fl3 P (flat_map ack_op P) = (fl4, P) /\
+                  flow_done fl4 /\ FI c fl4 P /\ ~ is_reset (fl_snd fl4).
+Proof. exact finish. Qed.
+
+(* ---- liveness of the two endpoints.  [sys_round fuel cap s] = report every frame of the pool lost; emit on
+   the client, then on the server, until an emission finds nothing (the boolean excludes fuel exhaustion);
+   deliver every frame of the pool; acknowledge every frame of the pool.
+   From EVERY state the system reaches (any op list) that is open, without reset / stop (no sender reset,
+   only STREAM frames in the pool) and with every written length within its stream window, the round
+   completes ([flow_done]) every flow of the client, every flow of a stream the server has learnt of, and
+   every flow that has already left the output set.  (A server flow of a stream the server has not learnt
+   of has no Writer, nothing can have been written on it, and nothing is claimed for it.) *)
+Theorem c01_progress : forall rot w dirs ops fuel cap s',
+  Forall (fun d => d = 0 \/ d = 1) dirs ->
+  let s := sys_exec (sys_init rot w dirs) ops in
+  sy_closed s = false ->
+  (forall key fl, StreamCtl.alookup (sy_flows s) key = Some fl -> ~ is_reset (fl_snd fl) /\ wr (fl_snd fl) <= md (fl_snd fl)) ->
+  (forall key f, In (key, f) (sy_pool s) -> is_frs f) ->
+  26 <= cap -> cap < two62 -> sys_round fuel cap s = (s', true) ->
+  forall key fl, StreamCtl.alookup (sy_flows s) key = Some fl ->
+    (key_side key = 0 \/ known s (key_stream key) = true \/ sn_inset (fl_snd fl) = false) ->
+    exists fl', StreamCtl.alookup (sy_flows s') key = Some fl' /\ flow_done fl'.
+Proof. exact p_c01_progress_reachable. Qed.
+
+(* the same from any calm state, for the members of the output sets; and the state after the round is calm
+   again, hence each of its flows is [flow_reach]able and [c01_done_reads] applies to it *)
+Theorem c01_progress_system : forall fuel cap s s',
+  Calm s -> 26 <= cap -> cap < two62 -> sys_round fuel cap s = (s', true) ->
+  forall key fl, StreamCtl.alookup (sy_flows s) key = Some fl ->
+    (sn_inset (fl_snd fl) = false \/ listed s 0 key \/ listed s 1 key) ->
+    exists fl', StreamCtl.alookup (sy_flows s') key = Some fl' /\ flow_done fl'.
+Proof. exact p_c01_progress_system. Qed.
+
+Theorem c01_round_calm : forall fuel cap s, Calm s -> Calm (fst (sys_round fuel cap s)).
+Proof. exact sys_round_calm. Qed.
+
+Theorem c01_done_reads : forall c fl P room fl' P',
+  flow_reach c fl P -> ~ is_reset (fl_snd fl) -> flow_done fl -> wr (fl_snd fl) < room ->
+  run c fl P [FRead room; FRead room] = (fl', P') ->
+  rc_got (fl_rcv fl') = written_bytes c fl' /\ (sn_shutcalled (fl_snd fl') = true -> rc_eos (fl_rcv fl') = true).
+Proof. exact p_c01_done_reads. Qed.
+
 (* ---- the two endpoints: a schedule with two streams, chunked writes, small packets, a lost frame that
    is retransmitted at different boundaries, FIN delivered before data, duplicates, acks after loss, and
    then the fair round (lose all, emit until drained, deliver all, ack all): everything written is read,
-   the end is reported, flush and shutdown are Ready (liveness on this instance; the general statement
-   c01_progress is NOT proved, see the report) *)
-Definition seqN (n : nat) : list N := map N.of_nat (seq 0 n).
-
+   the end is reported, flush and shutdown are Ready (liveness on this instance; the general statements are
+   c01_progress_flow and c01_progress above) *)
 Definition fair_round (cap : N) (n_emit n_pool : nat) : list op :=
   map OLose (seqN n_pool) ++ repeat (OEmit 0 cap cap) n_emit ++ repeat (OEmit 1 cap cap) n_emit
   ++ map ODeliver (seqN (n_pool + 2 * n_emit)) ++ map OAck (seqN (n_pool + 2 * n_emit)).
@@ -61,7 +164,7 @@ Definition demo_ops : list op :=
   ++ fair_round 33 6 8
   ++ [ORead 1 0 100; ORead 1 0 100; ORead 1 1 100; ORead 1 1 100; ORead 0 0 100; ORead 0 0 100].
 
-Definition flow_done (s : sys) (key : N) : bool :=
+Definition flow_done_b (s : sys) (key : N) : bool :=
   match StreamCtl.alookup (sy_flows s) key with
   | Some fl =>
     (lenN (rc_got (fl_rcv fl)) =? wr (fl_snd fl)) && rc_eos (fl_rcv fl)
@@ -72,14 +175,42 @@ Definition flow_done (s : sys) (key : N) : bool :=
   end.
 
 Example c01_progress_instance :
-  let s := sys_exec (sys_init 1048576 [0; 1]) demo_ops in
-  flow_done s 0 = true /\ flow_done s 1 = true /\ flow_done s 2 = true /\
+  let s := sys_exec (sys_init false 1048576 [0; 1]) demo_ops in
+  flow_done_b s 0 = true /\ flow_done_b s 1 = true /\ flow_done_b s 2 = true /\
   (exists fl, StreamCtl.alookup (sy_flows s) 0 = Some fl /\ wr (fl_snd fl) = 50 /\ rc_got (fl_rcv fl) = slice (cof 0) 0 50).
 Proof. vm_compute. repeat split. eexists. repeat split. Qed.
+
+(* non-vacuity of c01_progress: on the state reached by the schedule above before its closing round, the
+   round function itself ends with the boolean true (fuel 40, capacity 33) and completes the three flows *)
+Definition demo_prefix : list op := firstn 24 demo_ops.
+
+Example c01_progress_nonvacuous :
+  let s := sys_exec (sys_init false 1048576 [0; 1]) demo_prefix in
+  sy_closed s = false /\ snd (sys_round 40 33 s) = true /\
+  (let s' := fst (sys_round 40 33 s) in
+   existsb (fun key => match StreamCtl.alookup (sy_flows s') key with
+                       | Some fl => negb ((nread (rc_buf (fl_rcv fl)) + available (rc_buf (fl_rcv fl)) =? wr (fl_snd fl))
+                                          && match sn_st (fl_snd fl) with SDataRcvd => true | _ => false end)
+                       | None => true end) [0; 1; 2] = false).
+Proof. vm_compute. repeat split. Qed.
 
 Print Assumptions c01_step_inv.
 Print Assumptions c01_safety.
 Print Assumptions c01_frames.
 Print Assumptions c01_rcvbuf.
 Print Assumptions c01_reset_safe.
+Print Assumptions c01_reach_system.
+Print Assumptions c01_safety_system.
+Print Assumptions c01_cursor_visits_all.
+Print Assumptions c01_output_sorted.
+Print Assumptions c01_cursor_no_rotation.
+Print Assumptions c01_cursor_rotates.
+Print Assumptions c01_emit_none_all_tried.
+Print Assumptions c01_progress_flow.
+Print Assumptions c01_progress_drained.
+Print Assumptions c01_progress.
+Print Assumptions c01_progress_system.
+Print Assumptions c01_round_calm.
+Print Assumptions c01_done_reads.
 Print Assumptions c01_progress_instance.
+Print Assumptions c01_progress_nonvacuous.
